@@ -1,11 +1,12 @@
 ------------------------------- MODULE CodecDefs ------------------------------
 (* Definitions for property C19: wire codec and framing (DESIGN.md 6, C19).   *)
 (*                                                                            *)
-(* Four decision tables, each with its abstract case space, the code-shaped   *)
+(* Seven decision tables, each with its abstract case space, the code-shaped  *)
 (* `Expected` (what internal/jsonrpc2/messages.go, wire.go, mcp/content.go,   *)
-(* mcp/event.go and mcp/transport.go do, transcribed rule by rule) and the    *)
-(* property predicates that the monitor CodecMon evaluates on outcomes of     *)
-(* the REAL encoders/decoders/framers:                                        *)
+(* mcp/protocol.go, mcp/event.go, mcp/transport.go, mcp/streamable.go and     *)
+(* mcp/sse.go do, transcribed rule by rule) and the property predicates that  *)
+(* the monitor CodecMon evaluates on outcomes of the REAL encoders, decoders, *)
+(* framers, sessions and transports:                                          *)
 (*   Msg*   message shape classes x direction x framing   RoundTrip, Preserve *)
 (*   Wire*  raw wire shapes (valid and invalid)           Classify,           *)
 (*                                                         CaseSensitive      *)
@@ -13,6 +14,13 @@
 (*                                                         RequiredPresent    *)
 (*   Req*   required members of messages sent by real     RequiredPresent     *)
 (*          server/client sessions                                            *)
+(*   Vc*    member names in other letter case into the    CaseSensitiveVal    *)
+(*          decoders of MCP values                                            *)
+(*   Fr*    frames of every structural edge class through NoPanicFr           *)
+(*          the read loops of the real transports                             *)
+(*   Ar*    nil / empty / one element in every list- and  round trip of the   *)
+(*          map-valued member of every result type        arity (ArNilKept..) *)
+(* plus aggregated arbitrary bytes into the decoders (NeverPanics).           *)
 (* Byte-level fidelity cannot be expressed here (TLC integers are 32 bit, a   *)
 (* JSON document is not a TLA+ value): the Go harness compares every field of *)
 (* the original and of the re-decoded / re-encoded message and reports the    *)
